@@ -54,6 +54,7 @@ func newTCPDriver(config *TCPv4, sink packets.Sink, source packets.Source) *tcpD
 	if !config.ParisTracerouteMode {
 		basePacketID = packets.AllocPacketID(config.MaxTTL)
 		seqNum = rand.Uint32()
+		seqNum = verifSeqNum(seqNum)
 	}
 
 	return &tcpDriver{
@@ -118,6 +119,9 @@ func (t *tcpDriver) GetDriverInfo() common.TracerouteDriverInfo {
 
 func (t *tcpDriver) getNextPacketIDAndSeqNum(ttl uint8) (uint16, uint32) {
 	if t.config.ParisTracerouteMode {
+		if verifSeqNumActive() {
+			return 41821, verifSeqNum(0)
+		}
 		return 41821, rand.Uint32()
 	}
 	return t.basePacketID + uint16(ttl), t.seqNum
